@@ -166,7 +166,7 @@ def check_point(spec, q, rng_seed=0):
     segs = seg_list(path)
     ext = extent_of(path)
     fine = cc.fine_polyline(path, step=max(0.25, ext / 2000))
-    if dist_to_path(path, q, fine) <= 1e-3 * ext + max(0.3, ext / 1500):
+    if dist_to_path(path, q, fine) <= 1e-5 * ext + max(0.3, ext / 1500) * 0.01:
         return "skip:near"
     n = exact_parity(segs, q, rng)
     if n is None:
@@ -284,6 +284,16 @@ def rand_query(rng, path, i):
     b = path.bounds()
     w, h = b.right - b.left, b.top - b.bottom
     r = i % 10
+    if r == 4:
+        # next to the outline: a point of a segment moved along the normal by 3e-5 .. 1e-2 of the extent, to either side
+        s = rng.choice(path.asSegments())
+        t = rng.uniform(0.05, 0.95)
+        p = s.pointAtTime(t)
+        d = s.pointAtTime(min(1.0, t + 1e-4)) - s.pointAtTime(max(0.0, t - 1e-4))
+        n = math.hypot(d.x, d.y)
+        if n > 0:
+            off = max(w, h, 1e-9) * 10 ** rng.uniform(-4.5, -2) * rng.choice([1, -1])
+            return (p.x - d.y / n * off, p.y + d.x / n * off)
     if r < 5:
         return (rng.uniform(b.left - 0.1 * w, b.right + 0.1 * w), rng.uniform(b.bottom - 0.1 * h, b.top + 0.1 * h))
     if r == 5:
